@@ -5,6 +5,7 @@ package embx
 // (generate_receive with that method) must produce the same status / error, descendants, tables and balances.
 
 import (
+	"encoding/base64"
 	"math/big"
 	"sort"
 	. "zharness/hz"
@@ -16,6 +17,7 @@ import (
 	"github.com/zenon-network/go-zenon/vm/constants"
 	"github.com/zenon-network/go-zenon/vm/embedded"
 	"github.com/zenon-network/go-zenon/vm/embedded/definition"
+	"github.com/zenon-network/go-zenon/vm/embedded/implementation"
 	"github.com/zenon-network/go-zenon/vm/vm_context"
 )
 
@@ -47,6 +49,16 @@ func (w *world) modelOf(c *contractDef, m string) *modelled {
 				return &modelled{"emb_pillar", 2}
 			case definition.WithdrawQsrMethodName:
 				return &modelled{"emb_pillar", 3}
+			case definition.RegisterMethodName:
+				return &modelled{"emb_pillar", 4}
+			case definition.LegacyRegisterMethodName:
+				return &modelled{"emb_pillar", 5}
+			case definition.UpdatePillarMethodName:
+				return &modelled{"emb_pillar", 6}
+			case definition.DelegateMethodName:
+				return &modelled{"emb_pillar", 7}
+			case definition.UndelegateMethodName:
+				return &modelled{"emb_pillar", 8}
 			}
 		}
 	}
@@ -113,7 +125,7 @@ var errCodes = map[error]int64{
 	constants.ErrInvalidHashType: 8, constants.ErrInvalidHashDigest: 9, constants.ErrInvalidExpirationTime: 10,
 	constants.ReclaimNotDue: 11, constants.ErrExpired: 12, constants.ErrInvalidPreimage: 13, constants.ErrTokenInvalidText: 14,
 	constants.ErrTokenInvalidAmount: 15, constants.ErrIDNotUnique: 16, constants.ErrForbiddenParam: 17,
-	constants.ErrAlreadyRegistered: 18, constants.ErrNotEnoughDepositedQsr: 19, constants.ErrAlreadyRevoked: 20, constants.ErrInvalidName: 21, constants.ErrNotActive: 22,
+	constants.ErrAlreadyRegistered: 18, constants.ErrNotEnoughDepositedQsr: 19, constants.ErrAlreadyRevoked: 20, constants.ErrInvalidName: 21, constants.ErrNotActive: 22, constants.ErrNotUnique: 23, constants.ErrNotEnoughSlots: 24,
 	constants.ErrInsufficientBalance: 100, constants.ErrContractMethodNotFound: 101, constants.ErrContractDoesntExist: 101,
 }
 
@@ -354,15 +366,35 @@ func (w *world) embBefore(c *contractDef, s *nom.AccountBlock) *embPre {
 				Tup(I64(int64(definition.HashTypeSHA256)), Byt(prm.Preimage), Byt(crypto.HashSHA256(prm.Preimage))))
 		}
 	}
-	if m.fn == "emb_pillar" && m.id == 1 { // verdict of checkPillarNameStatic on the name carried by the call
-		name := new(string)
-		if definition.ABIPillars.UnpackMethod(name, definition.RevokeMethodName, s.Data) == nil {
-			ok := int64(0)
-			if len(*name) > 0 && len(*name) <= constants.PillarNameLengthMax && pillarNameRx.MatchString(*name) {
-				ok = 1
+	if m.fn == "emb_pillar" { // observed verdicts: checkPillarNameStatic on the name carried by the call; CheckSwapSignature + key id of RegisterLegacy
+		var name string
+		switch m.id {
+		case 1, 7:
+			n := new(string)
+			if definition.ABIPillars.UnpackMethod(n, methodOf(c, s.Data), s.Data) == nil {
+				name = *n
 			}
-			p.hashes = append(p.hashes, Tup(I64(ok), Byt([]byte(*name)), Byt(nil)))
+		case 4, 6:
+			prm := new(definition.RegisterParam)
+			if definition.ABIPillars.UnpackMethod(prm, methodOf(c, s.Data), s.Data) == nil {
+				name = prm.Name
+			}
+		case 5:
+			prm := new(definition.LegacyRegisterParam)
+			if definition.ABIPillars.UnpackMethod(prm, methodOf(c, s.Data), s.Data) == nil {
+				name = prm.Name
+				if ok, err := implementation.CheckSwapSignature(implementation.SwapRetrieveLegacyPillar, s.Address, prm.PublicKey, prm.Signature); ok && err == nil {
+					if pk, e := base64.StdEncoding.DecodeString(prm.PublicKey); e == nil {
+						p.hashes = append(p.hashes, Tup(I64(2), Byt(append(append([]byte{}, []byte(prm.PublicKey)...), []byte(prm.Signature)...)), Byt(implementation.PubKeyToKeyIdHash(pk).Bytes())))
+					}
+				}
+			}
 		}
+		ok := int64(0)
+		if len(name) > 0 && len(name) <= constants.PillarNameLengthMax && pillarNameRx.MatchString(name) {
+			ok = 1
+		}
+		p.hashes = append(p.hashes, Tup(I64(ok), Byt([]byte(name)), Byt(nil)))
 	}
 	return p
 }
